@@ -102,6 +102,9 @@ def run_sim_case(case, mon, prop, extra_monitors=None, nontrivial=None):
     case = dict(case)
     h = Harness(case["params"], case["algo"], gen.strip(case["workload"]), mons)
     h.run()
+    if h.monitor_error is not None:
+        mon.error("monitor failed (no verdict from this run): " + h.monitor_error)
+        return h
     for k, v in h.events.items():
         mon.count(k, v)
     mon.count("sim_runs")
